@@ -241,6 +241,10 @@ static void bar_setup(void) {
     k[9] = (char)('0' + i);
     bar_count[i] = (int)cfg_get(k, 1);
     fiber_barrier_init(&bar[i], (uint32_t)bar_count[i]);
+    // as if bar_start waits had already happened (a whole number of rounds): the state of an idle barrier is its counter
+    uint64_t start = (uint64_t)cfg_get("bar_start", 0);
+    start -= start % (uint64_t)bar_count[i];
+    bar[i].counter = start;
     vs_watch(&bar[i], sizeof bar[i]);
   }
 }
